@@ -149,17 +149,27 @@ fn candidates(w: &World, p: &Plan) -> Vec<(World, Plan)> {
         }
     }
     for i in 0..w.files.len() {
-        if let FileDiff::Insert { line, renamed_from: Some(_), edit } = &w.files[i].diff {
+        if let FileDiff::Insert { line, renamed_from, edit, more } = &w.files[i].diff {
+            if !more.is_empty() {
+                let mut c = w.clone();
+                c.files[i].diff = FileDiff::Insert { line: *line, renamed_from: renamed_from.clone(), edit: edit.clone(), more: vec![] };
+                out.push((c, p.clone()));
+                let mut c = w.clone();
+                c.files[i].diff = FileDiff::Insert { line: more[0].0, renamed_from: renamed_from.clone(), edit: more[0].1.clone(), more: vec![] };
+                out.push((c, p.clone()));
+            }
+        }
+        if let FileDiff::Insert { line, renamed_from: Some(_), edit, more } = &w.files[i].diff {
             let mut c = w.clone();
-            c.files[i].diff = FileDiff::Insert { line: *line, renamed_from: None, edit: edit.clone() };
+            c.files[i].diff = FileDiff::Insert { line: *line, renamed_from: None, edit: edit.clone(), more: more.clone() };
             out.push((c, p.clone()));
         }
-        if let FileDiff::Insert { line, renamed_from, edit } = &w.files[i].diff {
+        if let FileDiff::Insert { line, renamed_from, edit, more } = &w.files[i].diff {
             // a removal in front of an end tag has no insertion counterpart at the same line
             let is_tag = render_file(&w.files[i], false).blocks.iter().any(|b| b.end_line == *line);
             if *edit != LineEdit::Inserted && !is_tag {
                 let mut c = w.clone();
-                c.files[i].diff = FileDiff::Insert { line: *line, renamed_from: renamed_from.clone(), edit: LineEdit::Inserted };
+                c.files[i].diff = FileDiff::Insert { line: *line, renamed_from: renamed_from.clone(), edit: LineEdit::Inserted, more: more.clone() };
                 out.push((c, p.clone()));
             }
         }
